@@ -347,6 +347,10 @@ def directed_specs(op):
 	# an apply function that raises StopIteration for a group holding nothing but None (the exception must come out of the call, not end some internal loop quietly)
 	out.append(dict(base, table={"names": ["k", "s", "v"], "cols": [k, [1, None, 2, None, 3, 4], v]}, over=[name("k")], aggs={"sum": [name("v")]}, apply=[{"out": "first", "col": name("s"), "fn": "next-non-none"}]))
 	out.append(dict(base, table={"names": ["k", "s", "v"], "cols": [["a", "b", "a", "c", "a", "c"], [1, None, 2, 5, 3, 4], v]}, over=[name("k")], aggs={}, apply=[{"out": "n", "col": name("v"), "fn": "len"}, {"out": "first", "col": name("s"), "fn": "next-non-none"}, {"out": "m", "col": name("v"), "fn": "len"}]))
+	# mean_over and stdev_over naming two DIFFERENT vectors that carry one label (a detached vector that kept its source's name): each is reduced over its own values
+	out.append(dict(base, table={"names": ["k", "x"], "cols": [k, v]}, over=[name("k")], aggs={"mean": [name("x")], "stdev": [{"mode": "external", "values": [10, 40, 20, 10, 90, 5], "name": "x"}]}))
+	out.append(dict(base, table={"names": ["k", "x"], "cols": [k, v]}, over=[name("k")], aggs={"stdev": [name("x")], "mean": [{"mode": "external", "values": [10, 40, 20, 10, 90, 5], "name": "x"}], "sum": [name("x")]}))
+	out.append(dict(base, table={"names": ["k", "x"], "cols": [k, v]}, over=[name("k")], aggs={"mean": [{"mode": "external", "values": [1.5, 2.5, 3.5, 4.5, 5.5, 6.5], "name": None}], "stdev": [{"mode": "external", "values": [10, 40, 20, 10, 90, 5], "name": None}]}))
 	# an apply function that raises AttributeError for some group
 	out.append(dict(base, table={"names": ["k", "s", "v"], "cols": [k, ["x ", None, " y", "z", "q", None], v]}, over=[name("k")], aggs={"sum": [name("v")]}, apply=[{"out": "st", "col": name("s"), "fn": "strip-first"}]))
 	out.append(dict(base, table={"names": ["k", "s", "v"], "cols": [k, [None, " p", " y", "z", "q", "r"], v]}, over=[name("k")], aggs={}, apply=[{"out": "st", "col": name("s"), "fn": "strip-first"}, {"out": "n", "col": name("v"), "fn": "len"}]))
@@ -457,6 +461,43 @@ def run_repeated_name_after_other_table(chk, spec):
 		chk.fail("a repeated name resolves to its first occurrence", f"{op}/repeated-name-resolved-elsewhere-first/{spec['role']}", f"{spec!r}: table names {names!r}: result column {got!r}, expected {exp!r} (the FIRST column labelled 'v')")
 
 
+def run_odd_eq_numbers(chk, spec):
+	"""numbers whose == does not answer like a number's (answers True to everything, builds a truthy expression): None is recognised by IDENTITY, so every such cell is a value -
+	counted by count and mean, summed by sum, and the whole-column reductions agree with the single-group aggregate"""
+	import warnings
+	class Yes(float):
+		def __eq__(self, o): return True
+		def __ne__(self, o): return False
+		__hash__ = float.__hash__
+	class Expr(float):
+		def __eq__(self, o): return Expr(1.0)
+		__hash__ = float.__hash__
+		def __bool__(self): return True
+	mk = {"yes": Yes, "expr": Expr}[spec["cls"]]
+	vals = [mk(1.0), None, mk(3.0), mk(5.0)] if spec["gap"] else [mk(1.0), mk(3.0), mk(5.0)]
+	plain = [None if x is None else float.__float__(x) for x in vals]
+	nn = [x for x in plain if x is not None]
+	exp = {"mean": sum(nn) / len(nn), "sum": sum(nn), "count": len(nn)}
+	with warnings.catch_warnings():
+		warnings.simplefilter("ignore")
+		v = Vector(list(vals), dtype=object)
+		t = Table([Vector(["g"] * len(vals), name="k"), Vector(list(vals), dtype=object, name="v")])
+		whole = {"mean": call(v.mean), "sum": call(v.sum)}
+		agg = call(lambda: t.aggregate(over="k", mean_over="v", sum_over="v", count_over="v"))
+	chk.judged("aggregate", ("odd-eq-numbers", spec["cls"], spec["gap"]))
+	for red, o in whole.items():
+		if o.ok and (o.value is None or abs(float(o.value) - exp[red]) > 1e-9):
+			chk.fail("whole-column reductions agree with aggregating that column as a single group", f"vector/{red}/odd-eq-cells", f"{spec!r}: Vector.{red}() = {o.value!r}, the values are {nn!r}")
+			return
+	if agg.ok:
+		names, cols = J.cells(agg.value)
+		for red in ("mean", "sum", "count"):
+			got = cols[names.index(f"v_{red}")][0]
+			if got is None or abs(float(got) - exp[red]) > 1e-9:
+				chk.fail("each built-in aggregate equals the textbook function over that group's non-None values", f"aggregate/value/{red}/odd-eq-cells", f"{spec!r}: {red} = {got!r}, the values are {nn!r}")
+				return
+
+
 def run_key_forms_sequence(chk, spec):
 	"""the same partition asked for twice in different spellings on one long-lived table: first with the key given as a vector (an UNNAMED column of the table
 	or an outside vector), then by the column's positional accessor / by several names in their accessor or another-case spelling - both answers are the
@@ -544,7 +585,7 @@ def run_reduce_mutable_cells(chk, spec):
 		chk.fail("whole-column reductions agree with aggregating that column as a single group", f"vector-agree/differs/{spec['fn']}/mutable-cells", f"{spec!r}: vector {second.value!r}, aggregate {list(a.value.cols()[1]._underlying)[0]!r}")
 
 
-RUNNERS = {"same_function_twice": run_same_function_twice, "repeated_name_after_other_table": run_repeated_name_after_other_table, "key_forms_sequence": run_key_forms_sequence, "reduce_mutable_cells": run_reduce_mutable_cells, "nested_apply": run_nested_apply, "aggregate": run_aggregate, "vector_agree": run_vector_agree, "agg_chain": run_agg_chain, "label_keys": run_label_keys}
+RUNNERS = {"odd_eq_numbers": run_odd_eq_numbers, "same_function_twice": run_same_function_twice, "repeated_name_after_other_table": run_repeated_name_after_other_table, "key_forms_sequence": run_key_forms_sequence, "reduce_mutable_cells": run_reduce_mutable_cells, "nested_apply": run_nested_apply, "aggregate": run_aggregate, "vector_agree": run_vector_agree, "agg_chain": run_agg_chain, "label_keys": run_label_keys}
 RUNNERS["recompute"] = recompute.runner("C12")
 
 
@@ -590,6 +631,10 @@ def chain_cases(chk, second_op):
 
 
 def key_form_cases(chk, op):
+	if op == "aggregate":
+		for cls in ("yes", "expr"):
+			for gap in (False, True):
+				chk.case("odd_eq_numbers", {"cls": cls, "gap": gap}, "odd-eq-numbers")
 	for second in ("same-name", "handle", "other-column"):
 		for returns in ("number", "container"):
 			chk.case("same_function_twice", {"op": op, "second": second, "returns": returns}, "same-function-twice")
